@@ -39,6 +39,43 @@ reg("C03",
     assumptions=["the native node is wired with Wiring::add_node over the un-named TSB {a,b} input schema (hk/hk_native.h), its sources and sink are static nodes"],
     )
 
+reg("C03",
+    name="C03_sampler", src="harness/C03_sampler.cpp",
+    anchor_files=["src/hgraph/runtime/node.cpp", "include/hgraph/runtime/node.h", "include/hgraph/types/static_node.h", "include/hgraph/runtime/node_scheduler.h",
+                  "src/hgraph/types/time_series/ts_input/target_link.cpp", "src/hgraph/types/time_series/ts_input/target_link_ops.cpp",
+                  "src/hgraph/types/time_series/ts_input/base_view.cpp", "src/hgraph/types/time_series/ts_input.cpp",
+                  "src/hgraph/runtime/graph.cpp", "src/hgraph/runtime/nested_graph_node.cpp", "src/hgraph/types/graph_wiring.cpp"],
+    quick=dict(defs=dict(NCYC=3, TRAIL=3, DMAX=3, PMAX=3, DYN_DMAX=2, VARIANT_MASK=0x3fff), symx=dict(shards=16, **{"max-wall": 900})),
+    thorough=dict(defs=dict(NCYC=4, TRAIL=3, DMAX=3, PMAX=4, DYN_DMAX=2, VARIANT_MASK=0x3fff), symx=dict(shards=16, **{"max-wall": 3000, "shard-depth": 8})),
+    reach=["end", "one_passive_tick_alone_while_ready", "both_passive_inputs_tick_together_without_wakeup", "ran_on_own_wakeup_without_any_tick",
+           "own_wakeup_and_passive_tick_in_one_cycle", "own_wakeup_due_while_required_invalid", "ran_reading_older_passive_value",
+           "ran_after_sources_stopped_ticking", "passive_tick_between_two_own_wakeups", "ran_on_schedule_on_start_only",
+           "active_input_next_to_passive_structural_ran_node", "passive_structural_child_tick_next_to_active_input",
+           "tick_of_input_activated_at_run_time_ran_node", "tick_after_make_passive_without_wakeup",
+           "other_passive_tick_alone_while_one_input_dynamically_active", "make_active_in_cycle_where_input_already_ticked",
+           "variant_static_all_passive", "variant_schedule_on_start_period", "variant_single_shot_scheduler", "variant_no_wakeup_at_all",
+           "variant_non_peered_tsb_all_children_passive", "variant_non_peered_tsl_all_children_passive", "variant_native_empty_active_inputs",
+           "variant_nested_all_passive", "variant_peered_tsb_passive", "variant_single_passive_input", "variant_schedule_on_start_only",
+           "variant_mixed_structural_passive", "variant_dynamic_activity", "variant_dynamic_activity_tsb_child"],
+    bounds="one observed node WITHOUT any active input (active-input selector present but empty) + sink, fed by scripted sources a, b that each tick or not in "
+           "each of NCYC consecutive cycles (all tick patterns enumerated, payloads symbolic in [-1000,1000]); the node asks for its first wake-up d0 us after "
+           "start and from every run for the next one p us later (d0 in [1,DMAX], p in [1,PMAX], both symbolic), TRAIL trailing wake-up-only cycles; 14 variants: "
+           "(0) a Passive+required, b Passive+Unchecked, NodeScheduler; (1) schedule_on_start + period, all Unchecked; (2) SingleShotScheduler in start and eval; "
+           "(3) no wake-up source at all (must never run); (4) one non-peered TSB input {a,b} Passive+AllValid; (5) one non-peered TSL<TS,2> input Passive+Unchecked; "
+           "(6) NodeBuilder::native node with active_inputs={} and valid_inputs={a} (node.cpp ready_to_evaluate); (7) variant 0 inside a single_nested_graph_node child; "
+           "(8) one peered TSB input (single producer) Passive, default validity; (9) a single Passive input (stdlib resample signature); (10) schedule_on_start only; "
+           "(11) control: passive non-peered TSB next to one active input c; (12) declared-passive input a switched active / passive again by user code at run time "
+           "(make_active in run 0 or 1, make_passive never / 1 / 2 runs later; d0 in [0,DYN_DMAX] (0 = the start cycle itself), p in [2,PMAX]); (13) the same on child x of a non-peered TSB input",
+    outside="more than NCYC input cycles / NT=NCYC+TRAIL modelled cycles; more than two passive inputs; a different period per run, tagged requests and cancel operations "
+            "(C03_gate variant 4, C18); TSD/TSS inputs and InputActivity::Structural; REF inputs (C13); a native node whose root input is not a TSB (node.cpp "
+            "activate_input_slots does not consult the selector there, by construction); passive(port) on every input (refused at wiring by "
+            "NodeBuilder::with_passive_inputs); all-passive nodes inside map_/switch_/reduce children; restart of a stopped node (out of contract: "
+            "docs architecture.rst 'Restart is not supported by design'), so the deactivate path is reached through make_passive() at run time and through stop at the end of the run",
+    assumptions=["variant 6 is wired with Wiring::add_node over the un-named TSB {a,b} input schema, the way hk/hk_native.h does",
+                 "variant 7 is wired through hk/hk_nested.h (mirror of subgraph_wiring.h nested_<G>, whose template body crashes clang 14)",
+                 "variants 12/13: an input counts as active from the cycle after the run that called make_active() until the run that calls make_passive() (inclusive)"],
+    )
+
 META = dict(
     level="bounded symbolic model checking of the activation and readiness gates (node.cpp activate_input_slots / notify / ready_to_evaluate / evaluate_impl, "
           "static_node.h invoke_gated, graph.cpp schedule_node_impl / evaluate_impl, NodeBuilder::with_passive_inputs) on real wired graphs run by the simulation "
